@@ -28,7 +28,8 @@ func (eng) Rule() string {
 		"Auto state's Enter/self/state-state handler that fired, then with every assignment (<=4 Auto states) or sampled " +
 		"assignments of vetoes, plus vetoes of non-auto handlers (Exit, AnyEnter); the unvetoed and the single-veto runs are repeated with " +
 		"the AnyState handler of every non-auto transition queueing an arg-less Add of exactly the auto mutation's candidate set. The tracer sequence is judged: next-is-auto " +
-		"with exactly the expected called set, no auto after auto/unchanged/health, per-state outcome with excuses. " +
+		"with exactly the expected called set, no auto after auto/unchanged/health, per-state outcome with excuses, a state rejected by " +
+		"its own handler not active afterwards. " +
 		"Evaluation = one transition judged; distinct non-trivial = distinct (schema, veto table, history prefix) whose " +
 		"transition was an auto mutation or triggered one."
 }
@@ -72,7 +73,12 @@ func directed() []directedP {
 		"A": {}, "B": {Add: []string{"A"}}, "C": {Auto: true, Add: []string{"B"}},
 		"D": {Auto: true, Require: []string{"A"}}, "X": {},
 	}}
+	// A vetoed by its own Enter handler, B (accepted in the same auto mutation) Adds A
+	s3 := gen.SchemaSpec{Names: []string{"A", "B", "C", "T"}, States: map[string]gen.StateSpec{
+		"A": {Auto: true}, "B": {Auto: true, Add: []string{"A"}}, "C": {Auto: true}, "T": {},
+	}}
 	return []directedP{
+		{s3, []string{"AEnter"}, []gen.Op{{Kind: "add", States: []string{"T"}}}},
 		{s, []string{"BExit"}, []gen.Op{{Kind: "add", States: []string{"B"}}, {Kind: "add", States: []string{"C"}}}},
 		{s2, nil, []gen.Op{{Kind: "add", States: []string{"X"}}}},
 	}
@@ -278,6 +284,24 @@ func judgeAuto(res *core.CaseResult, schema am.Schema, tx *rec.TxRec, calls []re
 	for _, s := range tx.Called {
 		if rec.Has(tx.ActiveEnd, s) {
 			res.Count("auto_state_accepted", 1)
+			// rejected by its own Enter / self / state-state handler, yet applied
+			if ownVeto(s) && !rec.Has(tx.StatesBef, s) {
+				sig := "C07/auto-state-active-despite-own-veto"
+				// is s in the Add closure of the other states this mutation
+				// started from or called?
+				var others []string
+				for _, x := range append(slices.Clone(tx.StatesBef), tx.Called...) {
+					if x != s {
+						others = append(others, x)
+					}
+				}
+				if _, ok := oracle.AddClosure(schema, others)[s]; ok {
+					sig += "/pulled-back-by-add-relation"
+				}
+				res.Violate(sig, fmt.Sprintf(
+					"called Auto state %s was rejected by its own negotiation handler (vetoes in this transition: %v) and is active after the auto mutation",
+					s, vetoed), ctx)
+			}
 			continue
 		}
 		res.Count("auto_state_rejected", 1)
